@@ -64,7 +64,7 @@ STRUCTURAL = ("exact static rule check over all paths of the enumerated function
 PROPS = {
     "C01": {
         "title": "Canonicity: edges are equal exactly when they denote the same function",
-        "rules": [on_program(rules_canon.rule_canon), on_program(rules_canon.rule_hash), on_program(rules_canon.rule_equals), callers_for("C01"), on_program(rules_level.rule_index_kind), on_program(rules_storage.rule_singleton_scan)],
+        "rules": [on_program(rules_canon.rule_canon), on_program(rules_canon.rule_hash), on_program(rules_canon.rule_equals), on_program(rules_canon.rule_edge_array_guarded), callers_for("C01"), on_program(rules_level.rule_index_kind), on_program(rules_storage.rule_singleton_scan)],
         "explanation": STRUCTURAL + ". C01: reduce-then-lookup-before-insert on every path of node creation (normalise, transparent/identity/redundant elimination, sort, hash, find, insert — in order), "
                        "hash recipe agreement between the unpacked and the packed form in all four variants, edge equality reading forest id + node + edge value, who may write packed nodes / the unique table, and level/variable index kinds (the level-size bound and the unique-table slot of a node are taken for the variable at its level).",
         "assumptions": ["that the reduction conditions and the EV normal forms are the right ones is not decided (value semantics)", "float tolerance effects in EV* are not decided"],
@@ -76,7 +76,7 @@ PROPS = {
     "C02": {
         "title": "Every stored node obeys the forest's declared reduction rule",
         "rules": [on_program(rules_canon.rule_canon), callers_for("C02"), on_program(rules_layer.rule_active_count), on_program(rules_layer.rule_cache_before_rewrite),
-                  on_program(rules_layer.rule_exchange_once), on_program(rules_sibling.rule_swap_loops), on_program(rules_canon.rule_hash), on_program(rules_storage.rule_singleton_scan)],
+                  on_program(rules_layer.rule_exchange_once), on_program(rules_sibling.rule_swap_loops), on_program(rules_canon.rule_hash), on_program(rules_storage.rule_singleton_scan), on_program(rules_level.rule_chain_from_built)],
         "explanation": STRUCTURAL + ". C02: no transparent / redundant / identity pattern is inserted on any path of node creation and the stored level is the unpacked level; packed nodes are written only by creation and by the reordering primitives; "
                        "node count = live nodes (incActive/decActive pairing); the in-place rewrite of the adjacent-variable swap visits the same ranges in its MT and EV+ twins; full and sparse forms hash identically.",
         "assumptions": ["children strictly below parents, quasi-reduced never skipping and singleton-edge legality after arbitrary operation histories depend on the values operations put into nodes: not decided"],
@@ -88,12 +88,12 @@ PROPS = {
     "C03": {
         "title": "Functions built from minterms, constants and variables evaluate as specified",
         "rules": [on_program(rules_eval.rule_level_sign), on_program(rules_eval.rule_twins), on_program(rules_eval.rule_eval_dispatch),
-                  on_program(rules_guard.rule_edge_for_value), on_program(rules_guard.rule_zero_of_stored), on_program(rules_eval.rule_fold_mirror), on_program(rules_eval.rule_uniform_shortcut)],
+                  on_program(rules_guard.rule_edge_for_value), on_program(rules_guard.rule_zero_of_stored), on_program(rules_eval.rule_fold_mirror), on_program(rules_eval.rule_uniform_shortcut), on_program(rules_eval.rule_sparse_shrunk)],
         "explanation": STRUCTURAL + ". C03: evaluation clauses only ('evaluation never depends on how the function is represented internally'): the evaluation walk follows the minterm's unprimed value at unprimed levels and its primed value at primed levels "
                        "(by-node walkers: from(X) on the X>0 edge, to(-X) on the other; by-level walker for identity-reduced relations: from, downLevel, to / from==to test for a skipped primed level, downLevel); "
                        "the multi-terminal and the edge-valued walkers (all four edge-valued instantiations) make the same sequence of tests and steps; evaluate() selects the walker by set / relation / identity-reduced relation and instantiates the "
                        "edge-valued helper with the edge operation and scalar type of the forest; the value→edge encoding rejects a value of the wrong range type and chooses the EV* zero edge on the stored value; and one clause of the construction half: the min / max folds over the values of repeated minterms treat an infinite element and an infinite accumulator as mirror images (the built function cannot depend on the order of the collection).",
-        "assumptions": ["of the construction half of C03 (the recursive partition builder over minterm collections) only the shortcut clause is decided: a whole-interval shortcut is taken only under tests that imply every minterm of the interval has the same entry at the level, and the level is covered by the pattern that entry names; the general partition loop, max/min combination and default values are pointwise value semantics and are not decided",
+        "assumptions": ["of the construction half of C03 (the recursive partition builder over minterm collections) two clauses are decided: a whole-interval shortcut is taken only under tests that imply every minterm of the interval has the same entry at the level, and the level is covered by the pattern that entry names; a builder node of declared sparse size is shrunk to the number of entries actually added before it is reduced (defect D23); the general partition loop, max/min combination and default values are pointwise value semantics and are not decided",
                         "that the walk reads the right child is trusted to getDownPtr (decided structurally under C12's layout rule)"],
         "technique": "guard-edge dominance and step-sequence patterns over clang CFGs of the evaluator helpers; twin comparison of the MT and EV walkers; control-dependence contexts of the walker selections",
         "level_text": "exact static rule check over evaluator_helper_mt, every instantiation of evaluator_helper<EOP>, dd_edge::evaluate and forest::getEdgeForValue; decides structural necessary conditions of the evaluation clause, not the minterm builder",
@@ -128,7 +128,7 @@ PROPS = {
     },
     "C06": {
         "title": "Node lifetime: reference counts are exact, nothing dangles, nothing leaks",
-        "rules": [rules_own.rule_own, callers_for("C06"), on_program(rules_sibling.rule_counter_width), on_program(rules_ct.rule_recycle_gate), on_program(rules_sibling.rule_refcount_twins)],
+        "rules": [rules_own.rule_own, callers_for("C06"), on_program(rules_sibling.rule_counter_width), on_program(rules_ct.rule_recycle_gate), on_program(rules_sibling.rule_refcount_twins), on_program(rules_layer.rule_edge_set_balance)],
         "explanation": STRUCTURAL + ". C06: link/unlink discipline — on every non-throwing path of every analysed function each node_handle reference is created, moved into exactly one owner and released exactly once; "
                        "nodes die and handles are recycled only from the last-unlink/last-uncache state machine.",
         "assumptions": ["values flowing through arrays/containers are untracked (possible miss, never an alarm)", "throwing paths are exempt (C06 excludes error paths)",
@@ -153,7 +153,7 @@ PROPS = {
         "title": "Reachability operations return exactly the least fixed point",
         "rules": [on_program(rules_dispatch.rule_dispatch), rules_ftype.rule_mix_image, on_program(rules_sibling.rule_image_fire), on_program(rules_dispatch.rule_split_complete), on_program(rules_sibling.rule_graph_diagonals),
                   on_program(rules_ct.rule_key_level_flag), on_program(rules_level.rule_position_kind), on_program(rules_level.rule_chain_args), on_program(rules_level.rule_compare_after_store), on_program(rules_ct.rule_state_in_key), on_program(rules_sibling.rule_policy_reachability),
-                  on_program(rules_level.rule_skip_rule_consulted), on_program(rules_level.rule_diagonal_lift)],
+                  on_program(rules_level.rule_skip_rule_consulted), on_program(rules_level.rule_diagonal_lift), on_program(rules_level.rule_saturation_provenance_monolithic)],
         "explanation": STRUCTURAL + ". C08: one clause — the traditional (frontier / no frontier), saturation and one-step image factories select the same accumulate operator per forest kind "
                        "(boolean MT: UNION, integer MT: DIST_MIN, EV+: MINIMUM), a necessary condition of all algorithms returning the identical edge and of the distance variants using (min, +1) everywhere; "
                        "plus the cross-forest discipline of the reachability code; reduction-rule clause (`relation forests of every reduction rule`): every function that detects a level skipped by a relation node asks that forest for its rule, and saturation's split lifts the common diagonal to its level explicitly instead of letting the forest re-read a lower node (defect D22).",
@@ -274,7 +274,7 @@ PROPS = {
     },
     "C20": {
         "title": "Saturation over a partitioned relation equals reachability over its union",
-        "rules": [rules_ftype.rule_mix_satur_events, on_program(rules_level.rule_position_kind), on_program(rules_guard.rule_flags_binding), rules_orphan.rule_event_level, on_program(rules_level.rule_identity_needs_rule)],
+        "rules": [rules_ftype.rule_mix_satur_events, on_program(rules_level.rule_position_kind), on_program(rules_guard.rule_flags_binding), rules_orphan.rule_event_level, on_program(rules_level.rule_identity_needs_rule), on_program(rules_level.rule_saturation_provenance)],
         "explanation": STRUCTURAL + ". C20: cross-forest clause only — in saturation by events / by levels (sat_pregen.cc: saturate, saturateHelper and recFire of the forward and backward variants) and in the relation splitter and event bookkeeping (sat_relations.cc: splitMxd, findConfirmedStates, …) "
                        "every node handle is used only with the forest it belongs to (state-set forest, relation forest, result forest), on every path; and the position / value clause: where these functions walk a sparsely unpacked relation node, the position z and the value index(z) are kept apart (the identity pattern for a tested-but-unchanged variable is built for the value); and the overload clause: a storage-flag constant binds to a storage-flag parameter in the overload clang resolved (defect D18 in the relation splitter).",
         "assumptions": ["that the fixed point computed equals reachability under the union of the events is algorithmic semantics and is not decided", "the ownership engine is not armed in these files (they use the older compute-table idioms it does not model)",
